@@ -12,9 +12,10 @@ package client
 // ---------------------------------------------------------------------------
 
 // The client library opens two-party channels only.
-// The client library opens two-party channels only.
 //@ pred chanWF(ch *Channel) = ch != nil && ch.machine.StateMachine != nil && ch.machine.StateMachine.machine != nil &&
-//@   stateDecoded(ch.machine.StateMachine.machine.currentTX.State) && len(ch.machine.StateMachine.machine.currentTX.State.Balances[0]) == 2 && len(ch.machine.StateMachine.machine.currentTX.State.Balances[0]) == 2
+//@   stateDecoded(ch.machine.StateMachine.machine.currentTX.State) && len(ch.machine.StateMachine.machine.currentTX.State.Balances[0]) == 2 &&
+//@   ch.conn != nil && peersNonNil(ch.conn.peers) && partsNonNil(ch.machine.StateMachine.machine.params.Parts)
+//@ pred peersNonNil(p []map[wallet.BackendID]wire.Address) = forall i int :: 0 <= i && i < len(p) ==> wireMapNonNil(p[i])
 
 //@ func (*chanRegistry).Channel
 //@   trusted
@@ -86,3 +87,115 @@ package client
 //@           backendsEq(chanState(regLookup(&c.channels, prop.Parents[ourIdx])).Backends, prop.InitBals.Backends)
 //@   loop 1
 //@     invariant forall k int :: 0 <= k && k < $i ==> indexMap[k] < numPeers
+
+// What the decoders guarantee for each proposal kind (C13), used as precondition of validation.
+//@ pred ledgerPropDecoded(p *LedgerChannelProposalMsg) = p != nil && baseDecoded(&p.BaseChannelProposal) && peersNonNil(p.Peers) && addrMapNonNil(p.Participant)
+//@ pred subPropDecoded(p *SubChannelProposalMsg) = p != nil && baseDecoded(&p.BaseChannelProposal)
+//@ pred virtualPropDecoded(p *VirtualChannelProposalMsg) = p != nil && baseDecoded(&p.BaseChannelProposal) && peersNonNil(p.Peers) && addrMapNonNil(p.Proposer)
+//@ pred propDecoded(p ChannelProposal) =
+//@   (istype(p, "*LedgerChannelProposalMsg") ==> ledgerPropDecoded(as(p, "*LedgerChannelProposalMsg"))) &&
+//@   (istype(p, "*SubChannelProposalMsg") ==> subPropDecoded(as(p, "*SubChannelProposalMsg"))) &&
+//@   (istype(p, "*VirtualChannelProposalMsg") ==> virtualPropDecoded(as(p, "*VirtualChannelProposalMsg")))
+
+// twoPartyOK: the two-party conditions of the statement for the given peer list.
+//@ pred twoPartyOK(c *Client, b *BaseChannelProposal, peers []map[wallet.BackendID]wire.Address, ourIdx channel.Index, peerAddr map[wallet.BackendID]wire.Address) =
+//@   baseValid(b) && len(b.InitBals.Balances[0]) == 2 && len(peers) == 2 && ourIdx <= 1 &&
+//@   wireMapsEq(peers[1 - ourIdx], peerAddr) && wireMapsEq(peers[ourIdx], c.address)
+
+// validated(c, proposal, ourIdx, peerAddr): every condition of the statement holds for the received proposal.
+//@ pred validated(c *Client, proposal ChannelProposal, ourIdx channel.Index, peerAddr map[wallet.BackendID]wire.Address) =
+//@   (istype(proposal, "*LedgerChannelProposalMsg") ==>
+//@           twoPartyOK(c, &as(proposal, "*LedgerChannelProposalMsg").BaseChannelProposal, as(proposal, "*LedgerChannelProposalMsg").Peers, ourIdx, peerAddr) &&
+//@           as(proposal, "*LedgerChannelProposalMsg").Participant != nil) &&
+//@   (istype(proposal, "*VirtualChannelProposalMsg") ==>
+//@           twoPartyOK(c, &as(proposal, "*VirtualChannelProposalMsg").BaseChannelProposal, as(proposal, "*VirtualChannelProposalMsg").Peers, ourIdx, peerAddr) &&
+//@           len(as(proposal, "*VirtualChannelProposalMsg").Parents) == 2 && len(as(proposal, "*VirtualChannelProposalMsg").IndexMaps) == 2 &&
+//@           balancesEq(as(proposal, "*VirtualChannelProposalMsg").InitBals.Balances, as(proposal, "*VirtualChannelProposalMsg").FundingAgreement) &&
+//@           regLookup(&c.channels, as(proposal, "*VirtualChannelProposalMsg").Parents[ourIdx]) != nil) &&
+//@   (istype(proposal, "*SubChannelProposalMsg") ==>
+//@           baseValid(&as(proposal, "*SubChannelProposalMsg").BaseChannelProposal) && ourIdx <= 1 &&
+//@           regLookup(&c.channels, as(proposal, "*SubChannelProposalMsg").Parent) != nil &&
+//@           assetsEq(chanState(regLookup(&c.channels, as(proposal, "*SubChannelProposalMsg").Parent)).Assets, as(proposal, "*SubChannelProposalMsg").InitBals.Assets) &&
+//@           balancesGE(chanState(regLookup(&c.channels, as(proposal, "*SubChannelProposalMsg").Parent)).Balances, as(proposal, "*SubChannelProposalMsg").InitBals.Balances))
+
+//@ func (*Client).validTwoPartyProposal
+//@   requires c != nil && wireMapNonNil(c.address) && proposal != nil && propDecoded(proposal)
+//@   requires istype(proposal, "*SubChannelProposalMsg") ==> regLookup(&c.channels, as(proposal, "*SubChannelProposalMsg").Parent) != nil
+//@   ensures result == nil ==> validated(c, proposal, ourIdx, peerAddr)
+
+// The user's proposal handler may only be entered with a proposal that passed validation (gating, C08).
+//@ interface ProposalHandler
+//@   method HandleProposal
+//@     requires recv != nil && arg1 != nil && arg1.req == arg0 && validated(arg1.client, arg0, 1, arg1.peer)
+//@ end
+
+//@ func (*Client).prepareChannelOpening
+//@   requires c != nil && prop != nil && ctx != nil
+//@   modifies ghost("held")
+//@   ensures err == nil && istype(prop, "*SubChannelProposalMsg") ==> regLookup(&c.channels, as(prop, "*SubChannelProposalMsg").Parent) != nil
+
+//@ func (*Client).cleanupChannelOpening
+//@   trusted
+//@   requires c != nil
+//@   modifies ghost("held")
+
+//@ func (*Client).handleChannelProposal
+//@   requires c != nil && c.log != nil && wireMapNonNil(c.address) && handler != nil && req != nil && propDecoded(req)
+//@   modifies *
+
+// ---------------------------------------------------------------------------
+// Parameter derivation (C08): the channel parameters are a function of the proposal and the accept message only.
+// ---------------------------------------------------------------------------
+
+//@ sealed ChannelProposalAccept
+
+//@ func participants
+//@   ensures len(result) == 2 && fresh(arr(result)) && result[0] == proposer && result[1] == proposee
+
+//@ func nonceShares
+//@   ensures len(result) == 2 && fresh(arr(result)) && result[0] == proposer && result[1] == proposee
+
+// accMatches: the accept message has the kind that belongs to the proposal (validChannelProposalAcc / Matches).
+//@ pred accMatches(prop ChannelProposal, acc ChannelProposalAccept) =
+//@   (istype(prop, "*LedgerChannelProposalMsg") ==> istype(acc, "*LedgerChannelProposalAccMsg")) &&
+//@   (istype(prop, "*SubChannelProposalMsg") ==> istype(acc, "*SubChannelProposalAccMsg")) &&
+//@   (istype(prop, "*VirtualChannelProposalMsg") ==> istype(acc, "*VirtualChannelProposalAccMsg"))
+
+// The participant list: proposer's address first, responder's second (ledger and virtual channels); the parent's list for sub-channels.
+//@ func (*Client).mpcppParts
+//@   requires c != nil && prop != nil && acc != nil && accMatches(prop, acc)
+//@   requires istype(prop, "*SubChannelProposalMsg") ==> regLookup(&c.channels, as(prop, "*SubChannelProposalMsg").Parent) != nil
+//@   ensures istype(prop, "*LedgerChannelProposalMsg") ==> len(parts) == 2 && parts[0] == as(prop, "*LedgerChannelProposalMsg").Participant && parts[1] == as(acc, "*LedgerChannelProposalAccMsg").Participant
+//@   ensures istype(prop, "*VirtualChannelProposalMsg") ==> len(parts) == 2 && parts[0] == as(prop, "*VirtualChannelProposalMsg").Proposer && parts[1] == as(acc, "*VirtualChannelProposalAccMsg").Responder
+//@   ensures istype(prop, "*SubChannelProposalMsg") ==> parts == regLookup(&c.channels, as(prop, "*SubChannelProposalMsg").Parent).machine.StateMachine.machine.params.Parts
+
+// calcNonce hashes the nonce shares in order (SHA3-256 over share 0 then share 1); the hash itself is trusted.
+//@ ghost func nonceOf(a NonceShare, b NonceShare) int
+//@ func calcNonce
+//@   trusted
+//@   requires len(nonceShares) == 2
+//@   ensures result != nil && val(result) == nonceOf(nonceShares[0], nonceShares[1])
+
+// completeCPP: the parameters handed to the constructor are exactly (proposal's challenge duration, app, aux; the
+// participant list of mpcppParts; the nonce of both shares, proposer's first; ledger/virtual flags by proposal kind) -
+// nothing in them depends on the own index partIdx.
+//@ pred accDecoded(acc ChannelProposalAccept) =
+//@   (istype(acc, "*LedgerChannelProposalAccMsg") ==> addrMapNonNil(as(acc, "*LedgerChannelProposalAccMsg").Participant)) &&
+//@   (istype(acc, "*VirtualChannelProposalAccMsg") ==> addrMapNonNil(as(acc, "*VirtualChannelProposalAccMsg").Responder))
+
+//@ func (*Client).completeCPP
+//@   requires c != nil && prop != nil && acc != nil && accMatches(prop, acc) && propDecoded(prop) && accDecoded(acc) && partIdx <= 1
+//@   requires istype(prop, "*SubChannelProposalMsg") ==> chanWF(regLookup(&c.channels, as(prop, "*SubChannelProposalMsg").Parent))
+//@   modifies *
+//@   cutafter NewParams
+//@   callsite NewParams : nonce != nil &&
+//@     (istype(prop, "*LedgerChannelProposalMsg") ==> challengeDuration == as(prop, "*LedgerChannelProposalMsg").ChallengeDuration && app == as(prop, "*LedgerChannelProposalMsg").App &&
+//@        aux == as(prop, "*LedgerChannelProposalMsg").Aux && ledger && !virtual && len(parts) == 2 &&
+//@        parts[0] == as(prop, "*LedgerChannelProposalMsg").Participant && parts[1] == as(acc, "*LedgerChannelProposalAccMsg").Participant &&
+//@        val(nonce) == nonceOf(as(prop, "*LedgerChannelProposalMsg").NonceShare, as(acc, "*LedgerChannelProposalAccMsg").NonceShare)) &&
+//@     (istype(prop, "*VirtualChannelProposalMsg") ==> challengeDuration == as(prop, "*VirtualChannelProposalMsg").ChallengeDuration && app == as(prop, "*VirtualChannelProposalMsg").App &&
+//@        !ledger && virtual && len(parts) == 2 &&
+//@        parts[0] == as(prop, "*VirtualChannelProposalMsg").Proposer && parts[1] == as(acc, "*VirtualChannelProposalAccMsg").Responder &&
+//@        val(nonce) == nonceOf(as(prop, "*VirtualChannelProposalMsg").NonceShare, as(acc, "*VirtualChannelProposalAccMsg").NonceShare)) &&
+//@     (istype(prop, "*SubChannelProposalMsg") ==> challengeDuration == as(prop, "*SubChannelProposalMsg").ChallengeDuration && !ledger && !virtual &&
+//@        val(nonce) == nonceOf(as(prop, "*SubChannelProposalMsg").NonceShare, as(acc, "*SubChannelProposalAccMsg").NonceShare))
